@@ -98,7 +98,14 @@ type Scenario struct {
 	// SwapTypes exchanges the request/response types of the two plugin names of each kind in this scenario's registry
 	// (see newRegistry): the same plugin name has different declared types in different scenarios of one process.
 	SwapTypes bool `json:",omitempty"`
+	// NameKind != 0 gives plan p0 an unusual name (see planNames): names Submit refuses make the plan drop out (label),
+	// names it accepts must execute like any other ("when waiting on a started plan returns, the stored plan is
+	// Completed or Failed").
+	NameKind int `json:",omitempty"`
 }
+
+// planNames[NameKind]: non-ASCII white space only, mixed Unicode blanks, ASCII blanks, non-ASCII text, padded, long.
+var planNames = [...]string{"", "\u00a0", "\u2003\u3000\u2028", " \t ", "名前 ✓ план", "  padded  ", "long-" + strings.Repeat("n", 300)}
 
 func (c *ChecksSpec) groups() []ActionSpec {
 	if c == nil {
